@@ -7,6 +7,7 @@
   correspondence run (checks/c05.py) — see the level note in MANIFEST.json.
 -/
 import GdModel.Hostile.Model
+import GdModel.Hostile.Sie
 import GdModel.Scope.Lemmas
 import GdModel.Token.Fits
 namespace GdModel.Props.C05
@@ -194,5 +195,31 @@ theorem deep_include_ends_in_recurse_level (perm ped : Bool) (root : GdModel.Sco
     (GdModel.Scope.parse perm ped root its).err = true := by
   unfold GdModel.Scope.parse
   exact items_err_of_too_deep its 0 _ (by omega) (by decide)
+
+
+/-! ### 4. the SIE record cursor on untrusted indices -/
+
+/-- `_GD_SampIndRead` on a file whose record indices are arbitrary values the
+    repaired `_GD_Advance` accepts ([-1, 2^63-2], in any order): never more than
+    `nelem` samples are delivered, and every intermediate quantity (`s - p`,
+    `s - p + 1`, `s + 1`, `nelem - count`) stays inside an int64
+    (`GdModel.Hostile.Sie.inv_fits` under the invariant `Inv`, which
+    `readLoop_inv` shows is kept by every iteration). -/
+theorem sie_read_count_bound (nelem : Int) (recs : List Int) (hn0 : 0 ≤ nelem)
+    (hv : ∀ r ∈ recs, GdModel.Hostile.Sie.ValidIdx r) :
+    0 ≤ (GdModel.Hostile.Sie.read nelem recs ⟨0, -1, 0⟩).count ∧
+    (GdModel.Hostile.Sie.read nelem recs ⟨0, -1, 0⟩).count ≤ nelem := by
+  have h := GdModel.Hostile.Sie.read_count_bounded nelem recs ⟨0, -1, 0⟩ hn0 hv
+    (GdModel.Hostile.Sie.init_inv nelem hn0)
+  exact ⟨h.1, h.2.1⟩
+
+theorem sie_cursor_fits_int64 (nelem : Int) (recs : List Int) (hn : nelem ≤ 2 ^ 62) (hn0 : 0 ≤ nelem)
+    (hv : ∀ r ∈ recs, GdModel.Hostile.Sie.ValidIdx r) :
+    -2 ^ 63 ≤ (GdModel.Hostile.Sie.readLoop nelem recs ⟨0, -1, 0⟩).s - (GdModel.Hostile.Sie.readLoop nelem recs ⟨0, -1, 0⟩).p ∧
+    (GdModel.Hostile.Sie.readLoop nelem recs ⟨0, -1, 0⟩).s - (GdModel.Hostile.Sie.readLoop nelem recs ⟨0, -1, 0⟩).p < 2 ^ 63 ∧
+    (GdModel.Hostile.Sie.readLoop nelem recs ⟨0, -1, 0⟩).s + 1 ≤ GdModel.Hostile.Sie.maxI := by
+  have h := GdModel.Hostile.Sie.inv_fits nelem _
+    (GdModel.Hostile.Sie.readLoop_inv nelem recs ⟨0, -1, 0⟩ hv (GdModel.Hostile.Sie.init_inv nelem hn0)) hn
+  exact ⟨h.1, h.2.1, h.2.2.1⟩
 
 end GdModel.Props.C05
